@@ -118,10 +118,16 @@ class Zoo(object):
         fix = rng.random() < 0.5
         names = build0().get_parameter_names()
 
+        fix_all_mech = rng.random() < 0.3
+
         def build():
             ll = build0()
-            if fix and len(names) > 1:
+            n_err = len([n for n in names if not n.startswith('psi')])
+            if fix and len(names) > 1 and not (fix_all_mech and n_err < 2):
                 ll.fix_parameters({names[-1]: 0.9})
+            if fix_all_mech:
+                # every mechanistic parameter fixed: evaluateS1 then returns an empty mechanistic block
+                ll.fix_parameters({n: 1.1 for n in names if n.startswith('psi')})
             if posterior:
                 n = ll.n_parameters()
                 pr = pints.ComposedLogPrior(*[pints.GaussianLogPrior(1, 2) for _ in range(n)]) if n > 1 \
@@ -300,6 +306,44 @@ def reduced_user_model(ctx, chi, rng):
     ctx.spec('C19.user_models_not_modified', user.parameters() == u0, inp)
 
 
+def controller_from_user_models(ctx, chi, rng):
+    """posteriors / predictive models obtained from a ProblemModellingController are unaffected by later
+    changes to the user's mechanistic and error models (and the controller does not change them)"""
+    import pandas as pd
+    mech = toy.ToyModel(1, 2, int(rng.integers(100)))
+    em = chi.GaussianErrorModel()
+    before = (mech.parameters(), mech.outputs(), em.get_parameter_names(), mech._c.copy())
+    c = chi.ProblemModellingController(mech, [em]) if rng.random() < 0.5 else \
+        chi.ProblemModellingController(mech, [em], outputs=['out0'])
+    df = pd.DataFrame({'ID': [1, 1, 1, 2, 2], 'Time': [0.5, 1.0, 2.0, 0.5, 1.5], 'Observable': ['y'] * 5,
+                       'Value': [1.0, 1.4, 1.1, 2.0, 1.7]})
+    frame_before = df.copy(deep=True)
+    c.set_data(df, output_observable_dict={'out0': 'y'})
+    n = 3
+    c.set_log_prior(pints.ComposedLogPrior(*[pints.GaussianLogPrior(1, 2) for _ in range(n)]))
+    x = rng.uniform(0.5, 1.5, n)
+    inp = {'object': 'ProblemModellingController(ToyModel, GaussianErrorModel)', 'x': x}
+    ctx.case('controller-user-models', nontrivial='controller/%s' % np.round(x, 3).tolist(), sample=inp)
+    def as_list(z):
+        return list(z) if isinstance(z, (list, tuple)) else [z]
+    posts = as_list(c.get_log_posterior())
+    v0 = [float(p(x)) for p in posts]
+    ctx.spec('C19.user_models_not_modified',
+             (mech.parameters(), mech.outputs(), em.get_parameter_names()) == before[:3] and
+             np.array_equal(mech._c, before[3]), inp)
+    ctx.spec('C19.input_not_mutated/ProblemModellingController', df.equals(frame_before), inp)
+    # the user keeps working with his own objects
+    mech._c[:] = 5.0
+    mech.set_parameter_names({'psi0': 'renamed'})
+    em.set_parameter_names(['other'])
+    v1 = [float(p(x)) for p in posts]
+    v2 = [float(p(x)) for p in as_list(c.get_log_posterior())]
+    pm = c.get_predictive_model()
+    ctx.spec('C19.unaffected_by_later_changes_to_user_models',
+             same(np.array(v1), np.array(v0)) and same(np.array(v2), np.array(v0)) and
+             pm.get_parameter_names()[0] == 'psi0', inp, {'before': v0, 'after': v1, 'new posteriors': v2})
+
+
 def parallel(ctx, chi, rng, n_points=4):
     build0 = c08.make_ll(chi, rng)
     ll = build0()
@@ -339,6 +383,7 @@ def run(ctx):
         if i % 10 == 0:
             ctx.guard(siblings_and_later_mutation, ctx, chi, ctx.sub_rng(10 ** 6 + i))
             ctx.guard(reduced_user_model, ctx, chi, ctx.sub_rng(2 * 10 ** 6 + i))
+            ctx.guard(controller_from_user_models, ctx, chi, ctx.sub_rng(3 * 10 ** 6 + i))
     ctx.guard(parallel, ctx, chi, ctx.sub_rng(10 ** 7))
     if ctx.tier == 'thorough':
         for j in range(4):
